@@ -12,7 +12,7 @@ ASSUME \A k \in 1..NSeeds : \A t \in 1..3 : SeedLegal([k |-> k, td |-> Tds[t]])
 \* Meaning: tags of an imported type follow the tag default of the module that defines it
 M5 == Meaning(Seed(5, "E"))                 \* A: EXPLICIT TAGS, Bm: AUTOMATIC TAGS
 ASSUME M5.root[1].n = "x" /\ M5.root[1].t.tags = <<>>
-ASSUME M5.root[1].t.root[1].t.k = "BOOL"    \* Aux of Bm, not the Aux of A
+ASSUME M5.root[1].t.root[1].n = "a" /\ M5.root[1].t.root[1].t.k = "BOOL"    \* Aux of Bm, not the Aux of A
 ASSUME M5.root[2].t.k = "INT"               \* Aux of A
 ASSUME M5.root[1].t.root[1].t.tags = <<[cls |-> "C", num |-> 0, mode |-> "I"]>>
 ASSUME M5.root[1].t.root[2].t.tags = <<[cls |-> "C", num |-> 1, mode |-> "E"]>>   \* untagged CHOICE: EXPLICIT
@@ -84,6 +84,7 @@ ASSUME ~NestedComponentsOf(Seed(7, "E"))
 S7 == Seed(7, "E")
 In7 == InlinePlan(S7, 1, 4, << <<"r", 1>> >>)             \* s [0] Wr, Wr contains COMPONENTS OF
 ASSUME NestedComponentsOf(InlineOf(S7, 1, 4, In7))
+ASSUME XerNames(S7) = <<"Fl">> /\ XerNames(Seed(3, "E")) = <<"Ch", "Tn">>
 ASSUME ~ComponentsOfForeignScope(S7) /\ ComponentsOfForeignScope(SplitOf(S7, 1, {3}))     \* Wr moves away from Fl, which the components of Ba use
 ASSUME ~RecursionAcrossModules(Seed(4, "I")) /\ RecursionAcrossModules(SplitOf(Seed(4, "I"), 1, {3}))
 ASSUME LET e == NFEnv(Seed(1, "E"), {}) v == SeedVals([k |-> 1, td |-> "E"])[1] IN BoolDefaultViaReference(Seed(1, "E"), v)
